@@ -118,10 +118,12 @@ def input_tags(record: Any) -> list[str]:
         for cand in record.get_candidate_clusters():
             for locations in ([p.core_location for p in cand.protoclusters], [p.location for p in cand.protoclusters]):
                 try:
-                    wrapped = _parts(connect_locations(list(locations), wrap_point=length))
+                    wrapped = connect_locations(list(locations), wrap_point=length)
+                    wrapped = (_parts(wrapped), wrapped.strand)
                 except Exception:  # pylint: disable=broad-except
                     wrapped = ()
-                if wrapped != _parts(connect_locations(list(locations))):
+                plain = connect_locations(list(locations))
+                if wrapped != (_parts(plain), plain.strand):
                     tags.add("linear-core-wrap")
     if missing_links(record):
         tags.add("cds-link-miss")
@@ -334,7 +336,7 @@ RELEVANT = {
     "subregions": ["sub-tie", "whole-vs-origin"],
     "regions": ["proto-tie", "cand-tie", "sub-tie", "whole-vs-origin"],
     "area-members": ["proto-tie", "cand-tie", "sub-tie", "whole-vs-origin", "cds-link-miss", "cds-query-miss"],
-    "fixed-point-content": ["proto-tie", "cand-tie", "sub-tie", "whole-vs-origin", "side-proto"],
+    "fixed-point-content": ["proto-tie", "cand-tie", "sub-tie", "whole-vs-origin", "side-proto", "linear-core-wrap"],
     "fixed-point-order": ["prepeptide-rev", "prepeptide-origin", "prepeptide-partial"],
     "CDS-gene-functions": ["gf-colon"],
     "CDS": ["note-dup"],
@@ -424,5 +426,5 @@ FINDING_CLASSES: dict[str, Any] = {
     # CDSCollection.__lt__ orders a whole-record area and an origin-spanning area both ways round
     "C10-F10": lambda clause, case: _known(clause, case, AREAS, ("whole-vs-origin",)),
     # CandidateCluster.from_biopython connects locations with wrap_point=len(record) on linear records too
-    "C10-F11": lambda clause, case: _known(clause, case, ("candidates",), ("linear-core-wrap",)),
+    "C10-F11": lambda clause, case: _known(clause, case, ("candidates", "fixed-point-content"), ("linear-core-wrap",)),
 }
